@@ -609,6 +609,23 @@ impl Program {
         }
     }
 
+    /// Returns whether the token we just consumed is preceded, on its line, by a
+    /// THEN with no colon in between, i.e. whether it directly follows the single
+    /// statement of a THEN clause.
+    pub fn is_after_single_statement_then_clause(&self) -> bool {
+        let tokens = self.tokens();
+        let mut i = self.location.token_index.saturating_sub(1).min(tokens.len());
+        while i > 0 {
+            i -= 1;
+            match tokens[i] {
+                Token::Then => return true,
+                Token::Colon => return false,
+                _ => {}
+            }
+        }
+        false
+    }
+
     /// Throw away any remaining tokens.
     pub fn discard_remaining_tokens(&mut self) {
         self.location.token_index = self.tokens().len();
